@@ -373,10 +373,10 @@ fn selftest(args: &[String]) -> i32 {
     let exe = std::env::current_exe().unwrap();
     let seed = base_seed(args);
     let scale: u64 = arg_val(args, "--runs-scale").and_then(|s| s.parse().ok()).unwrap_or(1);
-    let plan: [(&str, u64); 14] = [
+    let plan: [(&str, u64); 16] = [
         ("C06", 20_000), ("C05", 2_000), ("C04", 600), ("C01", 2_000), ("C02", 1_000), ("C08", 8),
         ("C13", 10_000), ("C03", 5_000), ("C15", 16), ("C16", 2_000), ("C19", 600), ("C07", 24),
-        ("C14", 200), ("C18", 400),
+        ("C14", 200), ("C18", 400), ("C11", 2_000), ("C17", 100),
     ];
     let mut report = Vec::new();
     let mut bad = 0;
